@@ -1,2 +1,46 @@
-(** C03 - Match is a pure function.  Only statements, [exact], and Print Assumptions. *)
-From Sheens Require Import Model.Match.
+(** C03 - Match is a pure function: deterministic result, inputs untouched.
+    Only statements, [exact], and Print Assumptions.
+
+    The model is a Gallina function, so "inputs untouched / results
+    independent" holds of it by construction; what the theorems add is that
+    the *result does not depend on the order in which the runtime iterates
+    over maps* ([ord1], [ord2]: any order oracles) nor on the order in which
+    the entries of the pattern's, the message's and the bound values'
+    objects are listed (Go maps have no order; [jperm]).  Aliasing and
+    concurrent use are observed on the implementation (harness probes). *)
+From Sheens Require Import Model.Match Proofs.OrderBase Proofs.MatchOrder Proofs.PatternOrder
+     Proofs.EntryOrder Proofs.OrderSanity.
+
+(** any two iteration orders give the same multiset of binding sets and the
+    same success-or-error outcome (an exhausted recursion fuel says nothing) *)
+Theorem C03_order_independent :
+  forall ord1 ord2, perm_oracle ord1 -> perm_oracle ord2 ->
+  forall fuel p f bs, res_equiv (match_ ord1 fuel p f bs) (match_ ord2 fuel p f bs).
+Proof. exact match_order_independent. Qed.
+Print Assumptions C03_order_independent.
+
+(** the listed order of the pattern's entries is irrelevant (sorted visit) *)
+Theorem C03_pattern_entry_order :
+  forall ord fuel kvs kvs' f bs,
+  Permutation kvs kvs' -> NoDup (map fst kvs) ->
+  match_ ord fuel (JObj kvs) f bs = match_ ord fuel (JObj kvs') f bs.
+Proof. exact match_pattern_entry_order_irrelevant. Qed.
+Print Assumptions C03_pattern_entry_order.
+
+(** maps built in a different order, at any depth of pattern, message and
+    bound values, under any two iteration orders *)
+Theorem C03_construction_order_independent :
+  forall ord1 ord2, perm_oracle ord1 -> perm_oracle ord2 ->
+  forall fuel p p' f f' bs bs',
+  wf_json p = true -> wf_json f = true -> wf_bs bs = true ->
+  jperm p p' -> jperm f f' -> bs_jperm bs bs' ->
+  res_equiv_up_to_jperm (match_ ord1 fuel p f bs) (match_ ord2 fuel p' f' bs').
+Proof. exact match_entry_order_independent. Qed.
+Print Assumptions C03_construction_order_independent.
+
+(** non-vacuity: two oracles that do produce different result orders *)
+Example C03_nonvacuous :
+  perm_oracle ord_id /\ perm_oracle ord_rev /\
+  match_ ord_id 10 (JObj [("?k", JStr "?v")]) (JObj [("a", JNum 4); ("b", JNum 8)]) []
+  <> match_ ord_rev 10 (JObj [("?k", JStr "?v")]) (JObj [("a", JNum 4); ("b", JNum 8)]) [].
+Proof. split; [exact ord_id_perm | split; [exact ord_rev_perm | exact oracle_matters]]. Qed.
